@@ -393,6 +393,7 @@ func (dsc *dataStoreCommand) getKeySetExpiration(keyName string, expiration time
 		if strBytes != nil {
 			val = string(strBytes)
 			sk.expiresAt = expiration
+			dsc.setDirty()
 		} else {
 			exists = VALUE_WRONG_TYPE
 		}
@@ -800,6 +801,7 @@ func (dsc *dataStoreCommand) del(keyNames []string, reclaim bool) (output respVa
 				dsc.ds.data.remove(keyName)
 			} else {
 				sk.expiresAt = minTime
+				dsc.setDirty()
 			}
 		} else if reclaim {
 			// remove expired now (if it exists)
@@ -954,6 +956,7 @@ func (dsc *dataStoreCommand) expire(keyName string, expiration time.Time, nx, xx
 	}
 
 	sk.expiresAt = expiration
+	dsc.setDirty()
 	output.data = respInt(1)
 	return
 }
@@ -985,6 +988,7 @@ func (dsc *dataStoreCommand) persist(keyName string) (output respValue) {
 		return
 	}
 	sk.expiresAt = maxTime
+	dsc.setDirty()
 	output.data = respInt(1)
 	return
 }
@@ -1810,6 +1814,7 @@ func (dsc *dataStoreCommand) lset(keyName string, element string, count int) (ou
 	}
 
 	item.element = []byte(element)
+	dsc.setDirty()
 	output.data = rstrOK
 	return
 }
@@ -2110,6 +2115,7 @@ func (dsc *dataStoreCommand) fieldAddFloat(keyName, fieldName string, delta floa
 	}
 
 	m.store(fieldName, strconv.FormatFloat(value, 'f', -1, 64))
+	dsc.setDirty()
 	return
 }
 
@@ -2873,6 +2879,7 @@ func (dsc *dataStoreCommand) setMove(source, destination, memberName string) (ou
 	}
 
 	ss.remove(memberName)
+	dsc.setDirty()
 
 	output.data = respInt(added)
 	return
@@ -2898,6 +2905,7 @@ func (dsc *dataStoreCommand) setRemove(keyName string, members []string) (output
 	for _, member := range members {
 		if m.remove(member) {
 			removals++
+			dsc.setDirty()
 		}
 	}
 
